@@ -1474,7 +1474,6 @@ func c08R6(c *Ctx) {
 	}
 }
 
-
 // wholeCopyOf: v is a fresh copy of the whole slice held in field f: append([]byte(nil), x.f...),
 // append([]byte{}, x.f...), bytes.Clone(x.f), slices.Clone(x.f), or make + copy(dst, x.f) of len(x.f).
 func wholeCopyOf(v ssa.Value, f *types.Var) bool {
